@@ -22,6 +22,7 @@ type genCombo struct {
 	dataName  string
 	formatter string
 	placement string // inpkg-test | inpkg | exttest | separate
+	extraCfg  core.M // additional root-level settings (custom templates)
 }
 
 func (g genCombo) String() string {
@@ -62,7 +63,7 @@ func genCombos(quick bool) []genCombo {
 		for _, td := range tdata[t] {
 			for _, f := range []string{"goimports", "gofmt", "noop"} {
 				for _, p := range []string{"inpkg-test", "inpkg", "exttest", "separate", "separate-samename"} {
-					out = append(out, genCombo{t, td.d, td.n, f, p})
+					out = append(out, genCombo{template: t, data: td.d, dataName: td.n, formatter: f, placement: p})
 				}
 			}
 		}
@@ -86,6 +87,9 @@ func (g genCombo) config(names []string) core.M {
 	case "separate-samename":
 		// another directory whose package happens to have the source package's name
 		cfg["dir"], cfg["pkgname"], cfg["filename"] = "mocks/src", "src", "mocks.go"
+	}
+	for k, v := range g.extraCfg {
+		cfg[k] = v
 	}
 	ifc := core.M{}
 	for _, n := range names {
@@ -418,7 +422,7 @@ func C01(c *core.Ctx) error {
 	for _, sp := range core.SortedKeys(spellings) {
 		for _, t := range []string{"testify", "matryer"} {
 			for _, p := range []string{"inpkg-test", "inpkg", "exttest", "separate"} {
-				gms = append(gms, gm{sp, genCombo{t, core.M{}, "", "gofmt", p}})
+				gms = append(gms, gm{sp, genCombo{template: t, data: core.M{}, formatter: "gofmt", placement: p}})
 			}
 		}
 	}
